@@ -9,6 +9,7 @@ import (
 	"io"
 	"log"
 	"net"
+	"os"
 	"reflect"
 	"sync"
 	"time"
@@ -20,7 +21,7 @@ type tcpTransport struct {
 	TCPConfig
 	conn          net.Conn
 	ctxConn       *ctxConn
-	encoder       *json.Encoder
+	writer        io.Writer
 	decoder       *json.Decoder
 	limitedReader io.LimitedReader
 	encryption    SessionEncryption
@@ -129,17 +130,35 @@ func (t *tcpTransport) Send(ctx context.Context, e envelope) error {
 		return err
 	}
 
+	b, err := json.Marshal(e)
+	if err != nil {
+		return fmt.Errorf("tcp transport: send: %w", err)
+	}
+
 	t.ctxConn.SetWriteContext(ctx)
 
-	if err := t.encoder.Encode(e); err != nil {
-		if errors.Is(err, io.EOF) {
-			t.eof = true
-			_ = t.ctxConn.Close()
+	if n, err := t.writer.Write(append(b, '\n')); err != nil {
+		if errors.Is(err, io.EOF) || errors.Is(err, os.ErrDeadlineExceeded) || (n > 0 && ctx.Err() != nil) {
+			// The write was given up half way (a TLS connection does not even say how far it got):
+			// the connection is alive but the stream cannot carry another envelope
+			t.abort()
 		}
 		return fmt.Errorf("tcp transport: send: %w", err)
 	}
 
 	return nil
+}
+
+// abort marks the transport as disconnected and drops the connection without any farewell to the peer.
+func (t *tcpTransport) abort() {
+	t.eof = true
+	conn := t.conn
+	if tlsConn, ok := conn.(*tls.Conn); ok {
+		conn = tlsConn.NetConn()
+	}
+	if conn != nil {
+		_ = conn.Close()
+	}
 }
 
 func (t *tcpTransport) Receive(ctx context.Context) (envelope, error) {
@@ -208,8 +227,8 @@ func (t *tcpTransport) setConn(conn net.Conn) {
 		reader = io.TeeReader(reader, *tw.ReceiveWriter())
 	}
 
-	// Sets the encoder to be used for sending envelopes
-	t.encoder = json.NewEncoder(writer)
+	// Sets the writer to be used for sending envelopes
+	t.writer = writer
 
 	if t.ReadLimit == 0 {
 		t.ReadLimit = DefaultReadLimit
